@@ -445,6 +445,21 @@ func genHistory(t *rapid.T, spec *GenSpec) (*Program, int) {
 		maxOps = 40
 	}
 	nops := rapid.IntRange(1, maxOps).Draw(t, "nops")
+	if spec.BigBatches && p.Cfg.Backing == "store" && p.Cfg.Compaction == 1 && chance(t, "partialbias", 35) {
+		// shape that makes level-based *partial* compactions likely: one big old
+		// segment, then small rounds, few segments per level, no fragmentation veto
+		p.Cfg.LevelMaxSegs = rapid.SampledFrom([]int{2, 2, 3}).Draw(t, "pbMaxSegs")
+		p.Cfg.LevelMultiplier = rapid.SampledFrom([]int{3, 2}).Draw(t, "pbMult")
+		p.Cfg.CompactionPct = 1.5
+		g.batchNo++
+		b := &Batch{Ops: g.genBulk(t, g.model)}
+		g.model.Apply(b)
+		g.everKey = true
+		p.Ops = append(p.Ops, Op{Kind: "batch", B: b}, Op{Kind: "mstep"})
+		for k := 0; k < 3; k++ {
+			p.Ops = append(p.Ops, Op{Kind: "batch", B: g.nextBatch(t)}, Op{Kind: "mstep"})
+		}
+	}
 	lower := p.Cfg.Backing != "mem"
 	nextID := 1
 	var snaps, iters []int
